@@ -101,16 +101,21 @@ func exhaustiveT(r *trunner) {
 	ps, sps, shs := parts(), siblingPairs(), shapes()
 	idx := 0
 	budget := 260
-	total := len(ps) * len(sps) * (len(shs)*len(shs) + 3)
+	total := len(ps) * (len(shs)*len(shs) + (len(sps)-1)*2*len(shs) + len(sps)*3)
 	stride := total/budget + 1
 	run := func(b *tb) {
 		idx++
-		r.check(b.ops, idx%2 == 0, idx%stride == 0, "share-a-part")
+		r.check(b.ops, idx%3 == 0, idx%stride == 0, "share-a-part")
 	}
 	for _, p := range ps {
-		for _, sp := range sps {
+		for si, sp := range sps {
 			for i1, sh1 := range shs {
 				for i2, sh2 := range shs {
+					// all 36 pairs of nestings with the first pair of neighbours, the same nesting twice and
+					// each nesting followed by the next one with the others
+					if si > 0 && i2 != i1 && i2 != (i1+1)%len(shs) {
+						continue
+					}
 					b := &tb{}
 					x := p(b)
 					s1 := sp[0](b)
